@@ -52,6 +52,7 @@ type natEntry struct {
 type natUplinkGeneric struct {
 	clientName     string
 	clientAddrPort netip.AddrPort
+	state          *atomic.Pointer[net.UDPConn]
 	natConn        *net.UDPConn
 	natConnSendCh  <-chan *natQueuedPacket
 	natConnPacker  zerocopy.ClientPacker
@@ -375,6 +376,7 @@ func (s *UDPNATRelay) recvFromServerConnGeneric(ctx context.Context, lnc *udpRel
 					s.relayServerConnToNatConnGeneric(ctx, natUplinkGeneric{
 						clientName:     clientInfo.Name,
 						clientAddrPort: clientAddrPort,
+						state:          &entry.state,
 						natConn:        natConn,
 						natConnSendCh:  natConnSendCh,
 						natConnPacker:  clientSession.Packer,
@@ -473,6 +475,13 @@ func (s *UDPNATRelay) relayServerConnToNatConnGeneric(ctx context.Context, uplin
 				zap.Duration("natTimeout", uplink.natTimeout),
 				zap.Error(err),
 			)
+		}
+
+		// Stop swaps the session state before it forces natConn's read deadline into the past.
+		// If that happened while we were sending, the deadline set above has overwritten Stop's,
+		// and the downlink goroutine would sleep for a whole NAT timeout. Re-check and force it again.
+		if uplink.state.Load() != uplink.natConn {
+			_ = uplink.natConn.SetReadDeadline(conn.ALongTimeAgo)
 		}
 
 		s.putQueuedPacket(queuedPacket)
